@@ -71,7 +71,7 @@ PROP_FLAVOURS = {
     "C15": {"quick": ["asm", "plain"], "thorough": ["asm", "plain"]},
     "C16": {"quick": ["asm", "plain"], "thorough": ["asm", "plain"]},
     "C17": {"quick": ["asm", "plain"], "thorough": ["asm", "plain"]},
-    "C18": {"quick": ["asm"], "thorough": ["asm", "intr", "plain"]},
+    "C18": {"quick": ["asm"], "thorough": ["asm", "plain"]},
 }
 
 ALL_PROPS = ["C%02d" % i for i in range(1, 19)]
